@@ -34,12 +34,23 @@ class FailingSync(EventProcessor):
         self.seen += 1
         self.received.append(i)
         if self.always or i in self.fail_at:
+            _meddle(event)
             raise Boom(f"processor failure at event {i}")
 
     def shutdown(self) -> None:
         self.shutdowns += 1
         if self.fail_shutdown:
             raise Boom("processor failure at shutdown")
+
+
+def _meddle(event: Any) -> None:
+    """A buggy observer: before it fails it scribbles over every mutable container it was handed."""
+    for v in list(vars(event).values()) if hasattr(event, "__dict__") else []:
+        try:
+            if isinstance(v, (list, dict, set)):
+                v.clear()
+        except Exception:  # noqa: BLE001
+            pass
 
 
 class FailingAsync(AsyncEventProcessor):
@@ -50,16 +61,17 @@ class FailingAsync(AsyncEventProcessor):
         self.shutdowns = 0
 
     def on_event(self, event: Any) -> None:
-        self._hit()
+        self._hit(event)
 
     async def on_event_async(self, event: Any) -> None:
-        self._hit()
+        self._hit(event)
 
-    def _hit(self) -> None:
+    def _hit(self, event: Any) -> None:
         i = self.seen
         self.seen += 1
         self.received.append(i)
         if self.always or i in self.fail_at:
+            _meddle(event)
             raise Boom(f"processor failure at event {i}")
 
     def shutdown(self) -> None:
@@ -90,11 +102,32 @@ class C13(Prop):
     def cases(self, rng: random.Random, tier: str) -> Iterable[dict]:
         gens = [lambda: gen.gen_dag_program(rng, max_nodes=5, depth=rng.choice([0, 1])), lambda: gen.gen_gated_cfg(rng),
                 lambda: gen.gen_loop_bounded(rng), lambda: gen.gen_failing_dag(rng), lambda: gen.gen_map_node(rng)]
+        forced = 3
         while True:
-            c = rng.choice(gens)()
+            if forced or rng.random() < 0.1:
+                forced = max(0, forced - 1)
+                c = self._fanout(rng)
+            else:
+                c = rng.choice(gens)()
             yield {"program": c["program"], "values": c["values"], "cfg": c.get("cfg", {}), "runner": rng.choice(["sync", "async"]),
                    "flavour": rng.choice(["sync", "async"]), "sample_seed": rng.randint(0, 10**6),
                    "disp": {"n": rng.randint(1, 8), "procs": [self._rand_proc(rng) for _ in range(rng.randint(1, 4))]}}
+
+    @staticmethod
+    def _fanout(rng: random.Random) -> dict:
+        """A multi-target gate fanning out to several branches (its decision is a LIST kept by the run) next to a gate that decides nothing."""
+        k = rng.randint(2, 3)
+        ts = [f"b{i}" for i in range(k)]
+        pick = rng.sample(ts, rng.randint(1, k))
+        nodes = [{"name": "src", "kind": "fn", "params": [["a", None]], "dataOuts": ["x"], "body": {"b": "sum", "k": 0}},
+                 {"name": "fan", "kind": "route", "params": [["x", None]], "targets": ts + (["__END__"] if rng.random() < 0.3 else []), "multiTarget": True,
+                  "fallback": None, "defaultOpen": rng.random() < 0.5, "body": {"b": "table", "rows": [[1, pick]], "dflt": [ts[0]]}},
+                 {"name": "quiet", "kind": "route", "params": [["x", None]], "targets": ["side", "__END__"], "multiTarget": False, "fallback": None,
+                  "defaultOpen": rng.random() < 0.5, "body": {"b": "table", "rows": [[7, "side"]], "dflt": None}},
+                 {"name": "side", "kind": "fn", "params": [["x", None]], "dataOuts": ["s"], "body": {"b": "tag", "t": "side"}}]
+        nodes += [{"name": t, "kind": "fn", "params": [["x", None]], "dataOuts": [f"o_{t}"], "body": {"b": "tag", "t": t}} for t in ts]
+        rng.shuffle(nodes)
+        return {"program": [{"name": "g0", "nodes": nodes, "bound": []}], "values": [["a", rng.choice([1, 1, 2])]], "cfg": {}}
 
     @staticmethod
     def _rand_proc(rng: random.Random) -> dict:
